@@ -139,9 +139,15 @@ def fit_gaussian(x):
     out : tuple of float
         (a, mu, sigma, c)
     """
+    # the optimizer has absolute tolerances, so fit data of order unity
+    scale = np.abs(x).max()
+    if scale == 0 or not np.isfinite(scale):
+        scale = 1.0
+    x = x / scale
     res = curve_fit(gaussian, np.arange(x.size), x, p0=guess_gaussian(x),
                     method='trf')  # default 'lm' is broken, see Scipy #21995
-    return res[0]  # extract optimal values
+    a, mu, sigma, c = res[0]  # extract optimal values
+    return np.array([a * scale, mu, sigma, c * scale])
 
 
 def guss_gaussian(x):
